@@ -222,6 +222,11 @@ Outcome(toks) ==
   ELSE IF e.static THEN [v |-> "static", bad |-> 0, tree |-> NoWrap, static |-> TRUE]
   ELSE [v |-> "ok", bad |-> 0, tree |-> Node("circuit", "", e.stk[1].items), static |-> FALSE]
 
+\* a well-formed text with more than one register statement: grammatical (parse_to_sexpression returns its tree), refused
+\* by the string entry point with a JaqalError ("too many registers")
+TwoRegisters(toks) == LET o == Outcome(toks) IN
+                      o.v = "ok" /\ Cardinality({ j \in DOMAIN o.tree.c : o.tree.c[j].k = "register" }) > 1
+
 \* a well-formed text with a branch statement: the grammar accepts it (parse_to_sexpression returns its tree), the
 \* builder refuses it with a JaqalError unless the experimental switch is on
 Experimental(toks) == LET o == Outcome(toks) IN o.v = "ok" /\ \E j \in DOMAIN o.tree.c : o.tree.c[j].k = "branch"
